@@ -204,6 +204,8 @@ def jobs(tier):
             ([["REQ", "d/r2"], ["LIST", "d"]], [], [["write", "d/r2"]]), ([["UNREQ", "r1"]], [], [["write", "r1"]]),
             ([["LIST", ""]], [["create", "l1"]], [["delete", "r1"]]), ([], [["create", "l1"], ["mkdir", "m"]], [["mkdir", "e"]]),
             ([["REQ", "r1"], ["UNREQ", "r1"], ["REQ", "r1"]], [], [["write", "r1"]]),
+            ([["REQ", "r1"], ["UNREQ", "r1"], ["REQ", "r1"]], [], []),
+            ([["REQ", "d/r2"], ["UNREQ", "d/r2"], ["REQ", "d/r2"], ["LIST", "d"]], [], []),
             ([["UNREQ", "n.auto"]], [], []), ([["UNREQ", "n.auto"]], [], [["write", "n.auto"]]),
             ([["UNREQ", "n.auto"], ["LIST", ""]], [], [])]
     for cfg in cfgs:
